@@ -3,6 +3,7 @@
 use serde_json::Value;
 
 mod c01;
+mod c02;
 mod c03;
 mod c04;
 mod c07;
@@ -41,6 +42,7 @@ fn main() {
     let cases = input["cases"].as_array().expect("cases array");
     let observed: Vec<Value> = match args[1].as_str() {
         "c01" => cases.iter().map(c01::run).collect(),
+        "c02" => cases.iter().map(c02::run).collect(),
         "c03" => cases.iter().map(c03::run).collect(),
         "c04" => cases.iter().map(c04::run).collect(),
         "c07" => cases.iter().map(c07::run).collect(),
